@@ -41,7 +41,9 @@ NoOpBad(before, after) ==
   \cup (IF before.ct # after.ct \/ before.g # after.g THEN {<<"NoOp.DeclarationsChanged", 0>>} ELSE {})
 
 \* ---- Overwrite ------------------------------------------------------------------------------------------------------
-DiffEvents(before, after) == {j \in DOMAIN before.ev : before.ev[j] # after.ev[j]}
+\* (the noret flag on the Enter event of a function mirrors the declared return type recorded on its Exit event - one site, judged there)
+NoRetMasked(e) == IF e.ev = "Enter" /\ e.kind = "Fun" THEN [e EXCEPT !.noret = TRUE] ELSE e
+DiffEvents(before, after) == {j \in DOMAIN before.ev : NoRetMasked(before.ev[j]) # NoRetMasked(after.ev[j])}
 \* the single overwritten site: [kind, name, old, new]
 SiteOf(b, a) ==
   CASE b.ev = "VarDecl" -> [kind |-> "var", name |-> b.name,
